@@ -105,6 +105,7 @@ let parse_op (toks : string list) : op =
   | ["walkdir"; p] -> OWalkDir (ps p)
   | ["probe"; p] -> OProbe (ps p)
   | ["snap"; k] -> OSnap (nat k)
+  | ["tree"; k] -> OTree (nat k)
   | ["hread"; r; n] -> OHRead (nat r, n_of_int (int_of_string n))
   | ["hseek"; r; w; o] ->
       let o = z_of_string o in
@@ -115,6 +116,7 @@ let parse_op (toks : string list) : op =
   | ["hreadtoend"; r] -> OHReadToEnd (nat r)
   | ["setfault"; id; k] -> OSetFault (nat id, nat k)
   | ["clearlog"] -> OClearLog
+  | x :: _ when String.length x > 0 && x.[0] = 'x' -> ONop
   | _ -> failwith ("bad op " ^ String.concat " " toks)
 
 (* printing *)
